@@ -75,11 +75,11 @@ def s_ops(draw, kinds, max_len=8, targets=NMAX):
         if r <= 5:
             ops.append({"op": "compute", "target": draw(st.integers(0, targets))})
         elif r <= 6:
-            ops.append({"op": "get"})
+            ops.append({"op": "get", "which": draw(st.integers(0, 3))})
         elif kinds:
             ops.append({"op": "arm", "kind": draw(st.sampled_from(kinds)), "k": draw(st.integers(1, 14))})
         else:
-            ops.append({"op": "get"})
+            ops.append({"op": "get", "which": draw(st.integers(0, 3))})
     ops.append({"op": "compute", "target": draw(st.integers(0, targets))})
     return ops
 
@@ -318,6 +318,16 @@ def run_tebd(case):
     for i, op in enumerate(case["ops"]):
         if op["op"] != "compute":
             if reached >= 0:
+                which = op.get("which", 0)
+                if which == 1:
+                    obj.get_augmented_mps()
+                elif which >= 2:
+                    # the state getter between computes: equals the last recorded state and changes nothing
+                    site = sites[(which + i) % len(sites)]
+                    cur = np.array(obj.get_current_density_matrix(site))
+                    last = np.array(obj.get_results()["dynamics"][site].states)[-1]
+                    out.check_close("pt-tebd/get_current_density_matrix", cur, last, 1e-10, f"site {site} at step {reached}")
+                    out.label("get_current_density_matrix")
                 r = obj.get_results()
                 _check_prefix(out, "pt-tebd/get", r["time"], pack(r), rt, rs, reached + 1)
             continue
